@@ -114,41 +114,56 @@ def run(P: Program, R: Report, tier: str) -> None:
             R.ok("R18.1", f, f.node, f"{f.short}: no loop-carried source variable", via="reaching-definitions")
     R.floor("R18.1", "loops analysed", n_loops, 6)
     # ---- R18.2 sibling agreement
+    from ..resolve import Resolver
+
     def frame_keys(name: str):
         f = P.func_named(name)
+        rs = Resolver(P, f)
         keys = set()
-        for s in ast.walk(f.node):
-            if isinstance(s, ast.Subscript) and norm(s.value) == "node_frame_dict":
-                keys.add(norm(s.slice))
-        return f, keys
+        for s_ in ast.walk(f.node):
+            if isinstance(s_, ast.Subscript) and norm(s_.value) == "node_frame_dict":
+                keys.add(rs.text(s_.slice))
+        loopvars = [lp.target.id for lp in ast.walk(f.node) if isinstance(lp, ast.For) and isinstance(lp.target, ast.Name) and "node_frame_dict" in rs.text(lp.iter)]
+        return f, rs, keys, loopvars
 
-    f1, k1 = frame_keys("add_cand_edges")
-    f2, k2 = frame_keys("add_iou")
-    k1b = {k for k in k1 if "frame" in k}
-    R.check({"frame", "frame + 1"} <= k1b, "R18.2", f1, f1.node, "add_cand_edges takes its two node sets from node_frame_dict[frame] and [frame + 1]",
-            f"keys used: {sorted(k1)}", via="sibling-agreement")
-    R.check({"frame", "frame + 1"} <= k2, "R18.2", f2, f2.node, "add_iou takes its two node sets from node_frame_dict[frame] and [frame + 1]",
-            f"keys used: {sorted(k2)}", via="sibling-agreement")
-    for f in (f1, f2):
-        guard = any(isinstance(s, ast.If) and "frame + 1 not in node_frame_dict" in norm(s.test) and isinstance(s.body[0], ast.Continue) for s in ast.walk(f.node))
-        R.check(guard, "R18.2", f, f.node, f"{f.short} skips a frame whose successor frame has no detections", "", via="syntax")
+    for fname in ("add_cand_edges", "add_iou"):
+        f, rs, keys, loopvars = frame_keys(fname)
+        if not loopvars:
+            R.undecided("R18.2", f, f.node, f"{fname} loops over the frames of node_frame_dict", "loop not recognised")
+            continue
+        v = loopvars[0]
+        R.check({v, f"{v} + 1"} <= keys, "R18.2", f, f.node, f"{fname} takes its two node sets from node_frame_dict[{v}] and [{v} + 1]",
+                f"keys used: {sorted(keys)}", via="sibling-agreement")
+        # the iteration body is skipped when the following frame has no detections
+        guards = []
+        for s_ in ast.walk(f.node):
+            if isinstance(s_, ast.If):
+                t = rs.text(s_.test)
+                if "node_frame_dict" in t and f"{v} + 1" in t:
+                    guards.append(t)
+        R.check(bool(guards), "R18.2", f, f.node, f"{fname} handles a frame whose successor frame has no detections", "", via="syntax")
     # ---- R18.3 accumulation of the IoU table
     g = P.func_named("_get_iou_dict")
     tbl = None
-    for s in ast.walk(g.node):
-        if isinstance(s, ast.Return) and isinstance(s.value, ast.Name):
-            tbl = s.value.id
+    for s_ in ast.walk(g.node):
+        if isinstance(s_, ast.Return) and isinstance(s_.value, ast.Name):
+            tbl = s_.value.id
     if tbl is None:
         raise AnalysisError("_get_iou_dict: returned table not found")
-    creates = [s for s in ast.walk(g.node) if isinstance(s, ast.Assign) and isinstance(s.targets[0], ast.Subscript) and norm(s.targets[0].value) == tbl]
     bulk = [c for c in ast.walk(g.node) if isinstance(c, ast.Call) and isinstance(c.func, ast.Attribute) and norm(c.func.value) == tbl and c.func.attr in ("update", "__setitem__")]
     R.check(not bulk, "R18.3", g, bulk[0] if bulk else g.node, "_get_iou_dict never replaces a label's inner table wholesale",
             "`update` overwrites the inner table of a label that overlaps several labels: all but one overlap are lost", via="accumulator")
-    for s in creates:
-        key = norm(s.targets[0].slice)
-        guarded = any(isinstance(i, ast.If) and s in i.body and norm(i.test) == f"{key} not in {tbl}" for i in ast.walk(g.node))
-        empty = isinstance(s.value, ast.Dict) and not s.value.keys
-        R.check(guarded and empty, "R18.3", g, s, f"_get_iou_dict creates the inner table of `{key}` only when it is missing",
-                f"`{norm(s)}` can replace an existing inner table", via="accumulator")
-    inner = [s for s in ast.walk(g.node) if isinstance(s, ast.Assign) and isinstance(s.targets[0], ast.Subscript) and isinstance(s.targets[0].value, ast.Subscript) and norm(s.targets[0].value.value) == tbl]
+    creates = [s_ for s_ in ast.walk(g.node) if isinstance(s_, ast.Assign) and isinstance(s_.targets[0], ast.Subscript) and norm(s_.targets[0].value) == tbl]
+    from .util import guards_of
+
+    for s_ in creates:
+        key = norm(s_.targets[0].slice)
+        gs = [x.replace(" ", "") for x in guards_of(g, s_)]
+        guarded = f"{key}notin{tbl}".replace(" ", "") in gs
+        empty = isinstance(s_.value, ast.Dict) and not s_.value.keys
+        R.check(guarded and empty, "R18.3", g, s_, "_get_iou_dict creates the inner table of a label only when it is missing",
+                f"`{norm(s_)}` can replace an existing inner table", via="accumulator")
+    inner = [s_ for s_ in ast.walk(g.node) if isinstance(s_, ast.Assign) and isinstance(s_.targets[0], ast.Subscript) and (
+        (isinstance(s_.targets[0].value, ast.Subscript) and norm(s_.targets[0].value.value) == tbl)
+        or (isinstance(s_.targets[0].value, ast.Call) and call_name(s_.targets[0].value) == "setdefault" and norm(s_.targets[0].value.func.value) == tbl))]
     R.check(bool(inner), "R18.3", g, g.node, "_get_iou_dict adds overlaps entry by entry", "", via="accumulator")
